@@ -32,6 +32,8 @@ EXPLANATION_ADDED3 = (" (R2c also) a fill flag stored in the visual dictionary r
 EXPLANATION += EXPLANATION_ADDED3
 EXPLANATION_ADDED2 = (" (R5) `position - origin` is taken in floating point in every as_artist: the dataflow of C01.R9 with the origin (a caller's sequence, possibly an unsigned integer array) and array-valued positions (polygon vertices) as possibly-integer sources; scalar positions of the region itself are Python numbers (PixCoord unwraps scalars).")
 EXPLANATION += EXPLANATION_ADDED2
+EXPLANATION_ADDED4 = (' (R5 also) the size arguments handed to the matplotlib artist constructors (radius, width, height) are floats by then: matplotlib doubles, halves and negates them in their own dtype.')
+EXPLANATION += EXPLANATION_ADDED4
 TRUSTED = ['matplotlib Circle(xy, radius), Ellipse(xy, width, height, angle[deg]), Rectangle(xy, width, height, angle[deg] about xy), '
            'Polygon(xy n×2), Line2D(xs, ys), Arrow(x, y, dx, dy), Text(x, y, text), Path(vertices, codes)',
            'a path with an oppositely oriented inner outline renders a hole']
@@ -636,8 +638,23 @@ def r5(ctx):
         if 'origin' not in params:
             continue
         n += 1
-        lint = _DtypeLint(ctx, m, sums=True)
-        lint.fn(f, ['coord' if p_ == 'origin' else 'scalar' for p_ in params])
+        lint = _DtypeLint(ctx, m, sums=True, int_descr_kinds=('PositiveScalar',))
+        kinds = ['coord' if p_ == 'origin' else 'scalar' for p_ in params]
+        lint.fn(f, kinds)
+        # the sizes handed to the matplotlib artist: matplotlib doubles / halves / negates them in their own dtype (a Circle of
+        # radius np.uint8(200) has radius 72), so they must be floats by then
+        if not lint.problems:
+            env = dict(zip(params, kinds))
+            for st in ast.walk(f.node):
+                if isinstance(st, ast.Assign) and len(st.targets) == 1 and isinstance(st.targets[0], ast.Name):
+                    env[st.targets[0].id] = lint.kind(f, st.value, env, 0)
+            imported = {a.asname or a.name for st in ast.walk(f.node) if isinstance(st, ast.ImportFrom)
+                        and (st.module or '').startswith('matplotlib') for a in st.names}
+            for c in [x for x in ast.walk(f.node) if isinstance(x, ast.Call) and isinstance(x.func, ast.Name) and x.func.id in imported]:
+                for k in c.keywords:
+                    if k.arg in ('radius', 'width', 'height') and lint.kind(f, k.value, env, 0) == 'coord':
+                        lint.problems.append((f, k.value, f'`{k.arg}={ast.unparse(k.value)}` hands matplotlib a size in its own '
+                                              '(possibly fixed-width integer) dtype'))
         if lint.problems:
             fi, node, text = lint.problems[0]
             ctx.bad(f'{ci.name}.as_artist', 'origin-shift-dtype',
